@@ -154,7 +154,7 @@ class B:
 
     def route(self, expr, value, where="body"):
         """Return (text for P, text for P') for one foldable operand; P' reads it from a variable / helper."""
-        how = self.draw(st.sampled_from(["just_before", "far_before", "both_branches", "helper", "reassigned_before", "loop_reassigned"]))
+        how = self.draw(st.sampled_from(["just_before", "far_before", "both_branches", "helper", "reassigned_before", "loop_reassigned", "swapped", "rotated"]))
         v = self.nm("d")
         if how == "just_before":
             getattr(self, where)["var"].append(f"{v} = {expr}")
@@ -175,6 +175,17 @@ class B:
             other = self.draw(st.integers(0, 50))
             getattr(self, where)["var"] += [f"{v} = {other}", f"{v} = {expr}"]
             self.stale_possible = True
+        elif how in ("swapped", "rotated"):
+            # the operand reaches its name through a swap / three-way rotation of already assigned names (tuple assignment through temporaries)
+            w = self.nm("d")
+            other = self.draw(st.integers(0, 50))
+            if how == "swapped":
+                getattr(self, where)["var"] += [f"{v} = {expr}", f"{w} = {other}", f"{v}, {w} = {w}, {v}"]
+            else:
+                u = self.nm("d")
+                getattr(self, where)["var"] += [f"{v} = {expr}", f"{w} = {other}", f"{u} = {other + 1}", f"{v}, {w}, {u} = {u}, {v}, {w}"]
+            self.stale_possible = True
+            return expr, w   # a later target of the statement: its new value is the *old* value of an earlier target
         elif how == "loop_reassigned":
             k = self.nm("k")
             getattr(self, where)["var"] += [f"{v} = 1", f"for {k} in range(2):", f"    {v} = {v} + 1", f"{v} = {expr}"]
@@ -346,6 +357,13 @@ class B:
         rows = [self.draw(st.integers(0, 40)) for _ in range(8)]
         folded = [self.draw(st.sampled_from([f"{v}", f"({v} + 0)", f"({v * 2} // 2)", f"max({v}, 0)", f"int({v}.9)", f"({v + 32} - 32)"])) for v in rows]
         slot_e = self.draw(st.sampled_from(["0", "(1 + 2)", "7", "min(2, 5)"]))
+        # bitmap rows given by names with a history (assigned far before, in both branches, re-assigned, swapped, rotated): names in a bitmap are
+        # folded at transpile time, so the value must be the one the name holds at this point of the run
+        for i_ in range(8):
+            if self.draw(st.integers(0, 3)) == 0:
+                _, q = self.route(str(rows[i_]), rows[i_], "body")
+                if not q.endswith("()"):
+                    folded[i_] = q
         self.body["lit"].append(f"lcd.glyph({slot_e}, {rows!r})")
         self.body["var"].append(f"lcd.glyph({slot_e}, [{', '.join(folded)}])")
         return "glyph"
